@@ -1295,17 +1295,35 @@ func EvalReduceFn(reduceFn ast.ApplyFn, rows []ast.ConstSubstList) (ast.Constant
 		}
 		return ast.Number(int64(numDistinct)), nil
 	case symbols.Avg.Symbol:
-		v := reduceFn.Args[0].(ast.Variable)
+		v, err := reducerVariable(reduceFn)
+		if err != nil {
+			return ast.Constant{}, err
+		}
 		return evalAvg(rowsIter(v))
 
 	case symbols.Max.Symbol, symbols.FloatMax.Symbol, symbols.DurationMax.Symbol, symbols.TimeMax.Symbol,
 		symbols.Min.Symbol, symbols.FloatMin.Symbol, symbols.DurationMin.Symbol, symbols.TimeMin.Symbol,
 		symbols.Sum.Symbol, symbols.FloatSum.Symbol, symbols.DurationSum.Symbol:
-		v := reduceFn.Args[0].(ast.Variable)
+		v, err := reducerVariable(reduceFn)
+		if err != nil {
+			return ast.Constant{}, err
+		}
 		return listReducers[reduceFn.Function.Symbol](rowsIter(v))
 	default:
 		return ast.Constant{}, fmt.Errorf("unknown reducer %v", reduceFn.Function)
 	}
+}
+
+// reducerVariable returns the single variable argument of a reducer function.
+func reducerVariable(reduceFn ast.ApplyFn) (ast.Variable, error) {
+	if len(reduceFn.Args) != 1 {
+		return ast.Variable{}, fmt.Errorf("reducer %v expects 1 argument, got %d", reduceFn.Function.Symbol, len(reduceFn.Args))
+	}
+	v, ok := reduceFn.Args[0].(ast.Variable)
+	if !ok {
+		return ast.Variable{}, fmt.Errorf("reducer %v expects a variable, got %v", reduceFn.Function.Symbol, reduceFn.Args[0])
+	}
+	return v, nil
 }
 
 // EvalAtom returns an atom with any apply-expressions evaluated.
